@@ -168,3 +168,32 @@ fn f4_no_key_nonce_reuse_after_oversize_payload() {
         }
     }
 }
+
+// ------------------------------------------------------------------------------------------------ F5
+
+/// F5 (C17): with P-256 a public key is 65 bytes and a shared secret 32; after conversion to transport mode the
+/// reported remote static key must still be the peer's complete public key.
+#[test]
+fn f5_remote_static_complete_after_conversion_p256() {
+    let params: NoiseParams = "Noise_XX_P256_ChaChaPoly_SHA256".parse().unwrap();
+    let bi = Builder::new(params.clone());
+    let br = Builder::new(params);
+    let ki = bi.generate_keypair().unwrap();
+    let kr = br.generate_keypair().unwrap();
+    let mut i = bi.local_private_key(&ki.private).unwrap().build_initiator().unwrap();
+    let mut r = br.local_private_key(&kr.private).unwrap().build_responder().unwrap();
+    let mut m = [0u8; 512];
+    let mut p = [0u8; 512];
+    let n = i.write_message(b"", &mut m).unwrap();
+    r.read_message(&m[..n], &mut p).unwrap();
+    let n = r.write_message(b"", &mut m).unwrap();
+    i.read_message(&m[..n], &mut p).unwrap();
+    let n = i.write_message(b"", &mut m).unwrap();
+    r.read_message(&m[..n], &mut p).unwrap();
+    assert_eq!(i.get_remote_static().unwrap(), &kr.public[..]);
+    assert_eq!(r.get_remote_static().unwrap(), &ki.public[..]);
+    let ti = i.into_transport_mode().unwrap();
+    let tr = r.into_stateless_transport_mode().unwrap();
+    assert_eq!(ti.get_remote_static().unwrap(), &kr.public[..], "TransportState truncates the remote static key");
+    assert_eq!(tr.get_remote_static().unwrap(), &ki.public[..], "StatelessTransportState truncates the remote static key");
+}
